@@ -3,7 +3,7 @@ subprogram instances, locals of all sizes and array-map variables are built with
 the real generator and executed in the Coq ISA model; the real variable layout is
 compared with Gen/Layout.v."""
 from .common import Check, Err, clist, cz, eval_terms
-from . import dsl, exprs, ebpf_exec, isa_check, sim_kernel
+from . import dsl, exprs, ebpf_exec, isa_check, sim_kernel, sim_bpf
 
 import struct
 
@@ -27,11 +27,11 @@ def k_alias(case, o):
 class C04(Check):
     pid = "C04"
     props_file = "Props/C04.v"
-    corr_imports = ["Ebpf.Isa", "Corr.Exec", "Gen.Layout", "Corr.C04"]
+    corr_imports = ["Ebpf.Isa", "Corr.Exec", "Gen.Layout", "Corr.C04", "Corr.C09"]
     technique = ("Coq theorems about the variable layout functions (locals, scratch, array-map variables pairwise disjoint for ANY declaration list) + the frame "
                  "property of stores + comparison of the REAL layout with the model + execution of real generated programs that write one variable and read all others")
     trusted = ["coq/Ebpf/Isa.v (kernel-validated)"]
-    assumptions = ["hash-map variables and Dict structures are not covered (no hash map in the ISA model)"]
+    assumptions = ["packet variables are C07's; hash-map helper calls are served by coq/Corr/C09.v (validated against the kernel by harness/hash_check.py)"]
     known_classes = {"subprogram_locals_alias": k_alias}
 
     def make_case(self, rng):
@@ -62,12 +62,16 @@ class C04(Check):
         return case
 
     def gen_cases(self):
-        return [self.make_case(self.rng) for _ in range(300 if self.tier == "quick" else 4000)]
+        n = 300 if self.tier == "quick" else 4000
+        return [self.make_case(self.rng) for _ in range(n)] + [dict_case(self.rng) for _ in range(n // 3)]
 
     def corpus(self):
         # the golden-pinned aliasing of two instances of one subprogram class
         return [{"main": {"locals": [("a0", "I")], "arrays": []}, "classes": [{"locals": [("l0", "I")], "arrays": []}], "insts": [0, 0],
-                 "init": {"main.a0": 5, "s0.l0": 3, "s1.l0": 7}, "stmts": [["setc", "s0", "l0", 9]]}]
+                 "init": {"main.a0": 5, "s0.l0": 3, "s1.l0": 7}, "stmts": [["setc", "s0", "l0", 9]]},
+                {"kind": "dict", "items": [["L", "l0", "I"], ["D", "t1", ["Q"], ["I"]], ["H", "h2", "q"]],
+                 "order": [["L", "l0"], ["K", "t1", 0], ["V", "t1", 0], ["H", "h2"]], "vals": {"l0": 0x11111111, "t1.k0": 5, "t1.v0": 77, "h2": -9}, "update": True},
+                {"kind": "dict", "items": [["D", "t0", ["I"], ["I"]]], "order": [["V", "t0", 0], ["K", "t0", 0]], "vals": {"t0.k0": 5, "t0.v0": 77}, "update": True}]
 
     def build(self, case):
         from ebpfcat.arraymap import ArrayMap
@@ -129,6 +133,16 @@ class C04(Check):
         terms, idx = [], []
         for i, c in enumerate(cases):
             c["_run"] = None
+            if c.get("kind") == "dict":
+                try:
+                    c["_b"] = dict_build(c)
+                except Exception as e:      # noqa
+                    import traceback
+                    c["_b"] = Err(6, f"{type(e).__name__}: {e} {traceback.format_exc()[-300:]}")
+                    continue
+                terms.append(dict_term(c, c["_b"]))
+                idx.append(i)
+                continue
             for k in ("main",):
                 c[k]["locals"] = [tuple(x) for x in c[k]["locals"]]
                 c[k]["arrays"] = [tuple(x) for x in c[k]["arrays"]]
@@ -173,6 +187,8 @@ class C04(Check):
         return dsl.from_bytes("q" if f == "x" else f, data)
 
     def run_impl(self, case):
+        if case.get("kind") == "dict":
+            return dict_run(case)
         b = case["_b"]
         if isinstance(b, Err):
             return b
@@ -193,6 +209,10 @@ class C04(Check):
         b = case["_b"]
         if isinstance(b, Err) or case.get("_o") is None:
             return None
+        if case.get("kind") == "dict":
+            its = [f"ILocal {cz(fsize(it[2]))}" if it[0] == "L" else f"IDict {cz(sum(fsize(f) for f in it[2]))} {cz(sum(fsize(f) for f in it[3]))}"
+                   for it in case["items"] if it[0] != "H"]
+            return f"(layout_items {clist(its)} 4)"
         sz = lambda l: clist([cz(fsize(f)) for _, f in l])
         subs = clist([sz(case["classes"][i]["locals"]) for i in case["insts"]])
         arr = list(case["main"]["arrays"])
@@ -201,6 +221,8 @@ class C04(Check):
         return f"(layout {sz(case['main']['locals'])} {subs} {sz(arr)} 4)"
 
     def model_value(self, case, o):
+        if case.get("kind") == "dict":
+            return [o["addrs"], o["scratch"]]
         lay = o["layout"]
         main = [lay[f"main.{n}"][1] for n, _ in case["main"]["locals"]]
         subs = [[lay[f"s{k}.{n}"][1] for n, _ in case["classes"][i]["locals"]] for k, i in enumerate(case["insts"])]
@@ -211,6 +233,8 @@ class C04(Check):
 
     # ---- oracle
     def holds(self, case, o):
+        if case.get("kind") == "dict":
+            return dict_holds(case, o)
         if isinstance(o, Err):
             if o.code == 6:
                 return True if ("no value" in o.what or "not enough registers" in o.what) else f"generator refused the program: {o.what}"
@@ -287,11 +311,19 @@ class C04(Check):
     def rule(self):
         return ("main program with 1-5 locals and 0-4 array-map variables of formats BHIQbhiqx, 0-2 subprogram classes (0-3 locals, 0-2 array variables) with 1-2 "
                 "instances (possibly of the same class); all variables preset with distinct values; 1-4 statements writing a constant or an expression of "
-                "another variable; afterwards every variable must hold its last written or its initial value")
+                "another variable; afterwards every variable must hold its last written or its initial value; a further third of that number: programs declaring 1-2 Dict "
+                "structures (1-3 key and value members) between 0-4 locals and hash-map variables in random declaration order, every local, member and hash variable "
+                "written once in random order, optionally update(): every one must hold its value at the end and the map entry must be key -> value")
 
     def distribution(self, cases, observed):
-        d = {"with_subprograms": 0, "same_class_twice": 0, "array_vars": 0, "locals": 0, "build_errors": 0}
+        d = {"with_subprograms": 0, "same_class_twice": 0, "array_vars": 0, "locals": 0, "build_errors": 0, "dict_programs": 0, "dict_updates": 0, "hash_vars": 0}
         for c, o in zip(cases, observed):
+            if c.get("kind") == "dict":
+                d["dict_programs"] += 1
+                d["dict_updates"] += bool(c["update"])
+                d["hash_vars"] += sum(1 for it in c["items"] if it[0] == "H")
+                d["build_errors"] += isinstance(o, Err)
+                continue
             d["with_subprograms"] += bool(c["insts"])
             d["same_class_twice"] += len(c["insts"]) == 2 and c["insts"][0] == c["insts"][1]
             d["array_vars"] += len(c["main"]["arrays"])
@@ -301,6 +333,198 @@ class C04(Check):
 
     def describe(self, case):
         return {k: v for k, v in case.items() if not k.startswith("_")}
+
+
+# ---------------------------------------------------------------- locals + Dict structures + hash-map variables
+DFMTS = ["B", "H", "I", "Q", "b", "h", "i", "q"]
+
+
+def dict_case(rng):
+    def members():
+        return sorted([rng.choice(DFMTS) for _ in range(rng.randint(1, 3))], key=lambda f: -fsize(f))
+
+    def nz(f):
+        while True:
+            v = exprs.rand_value(rng, f) if rng.random() < 0.3 else rng.randrange(1, 1 << (8 * fsize(f) - 1))
+            if v:
+                return v
+    items, nd = [], rng.randint(1, 2)
+    kinds = ["D"] * nd + [rng.choice("LLLH") for _ in range(rng.randint(0, 4))]
+    rng.shuffle(kinds)
+    for k, kind in enumerate(kinds):
+        if kind == "L":
+            items.append(["L", f"l{k}", rng.choice(DFMTS)])
+        elif kind == "H":
+            items.append(["H", f"h{k}", rng.choice(DFMTS + ["x"])])
+        else:
+            items.append(["D", f"t{k}", members(), members()])
+    targets, vals = [], {}
+    for it in items:
+        if it[0] == "L":
+            targets.append(["L", it[1]])
+            vals[it[1]] = nz(it[2])
+        elif it[0] == "H":
+            targets.append(["H", it[1]])
+            vals[it[1]] = rng.choice([0.29, 2.5, 1.0]) if it[2] == "x" else nz(it[2])
+        else:
+            for i, f in enumerate(it[2]):
+                targets.append(["K", it[1], i])
+                vals[f"{it[1]}.k{i}"] = nz(f)
+            for i, f in enumerate(it[3]):
+                targets.append(["V", it[1], i])
+                vals[f"{it[1]}.v{i}"] = nz(f)
+    rng.shuffle(targets)
+    return {"kind": "dict", "items": items, "order": targets, "vals": vals, "update": rng.random() < 0.6}
+
+
+def dict_build(case):
+    from ebpfcat.ebpf import EBPF, Structure, Member, LocalVar
+    from ebpfcat.hashmap import HashMap, Dict
+    from ebpfcat.bpf import ProgType
+    sim = sim_bpf.BpfSim()
+    res = {"sim": sim}
+    with sim_bpf.installed(sim):
+        ns, hm, structs = {}, None, {}
+        for it in case["items"]:
+            if it[0] == "L":
+                ns[it[1]] = LocalVar(it[2])
+            elif it[0] == "H":
+                if hm is None:
+                    hm = HashMap()
+                    ns["hm"] = hm
+                ns[it[1]] = hm.globalVar(it[2], default=0)
+            else:
+                Key = type("Key", (Structure,), {f"k{i}": Member(f) for i, f in enumerate(it[2])})
+                Value = type("Value", (Structure,), {f"v{i}": Member(f) for i, f in enumerate(it[3])})
+                structs[it[1]] = (Key, Value)
+                ns[it[1]] = Dict(key=Key, value=Value, size=4)
+        P = type("P", (EBPF,), ns)
+        e = P(ProgType.XDP, "GPL")
+        for t in case["order"]:
+            if t[0] in ("L", "H"):
+                setattr(e, t[1], case["vals"][t[1]])
+            elif t[0] == "K":
+                setattr(getattr(e, t[1]).key, f"k{t[2]}", case["vals"][f"{t[1]}.k{t[2]}"])
+            else:
+                setattr(getattr(e, t[1]).value, f"v{t[2]}", case["vals"][f"{t[1]}.v{t[2]}"])
+        if case["update"]:
+            for it in case["items"]:
+                if it[0] == "D":
+                    getattr(e, it[1]).update()
+        e.r0 = 2
+        e.exit()
+        with e.get_stack(4) as sc:
+            res["scratch"] = sc
+        e.load()
+        addrs = []
+        for it in case["items"]:
+            if it[0] == "L":
+                addrs.append(P.__dict__[it[1]].relative_addr)
+            elif it[0] == "D":
+                d = P.__dict__[it[1]]
+                addrs += [d.key_offset, d.value_offset]
+        fds = list(sim.maps)
+        res["hash_ids"] = {100 + j: fd for j, fd in enumerate(fds)}
+        fdmap = {fd: 100 + j for j, fd in enumerate(fds)}
+        instrs = []
+        for ins in e.opcodes:
+            op, dst, src, off, imm = ins
+            if op.value == 0x18 and src == 1:
+                imm = fdmap.get(imm, 0)
+            instrs.append((op.value, dst, src, off, imm))
+        res.update(instrs=instrs, e=e, addrs=addrs, structs=structs)
+    return res
+
+
+def dict_term(case, b):
+    tabs, regions = [], []
+    for hid, fd in b["hash_ids"].items():
+        m = b["sim"].maps[fd]
+        ents = []
+        for k, v in m["data"].items():
+            ents.append(f"({ebpf_exec.cbytes(k)}, {len(regions)}%nat)")
+            regions.append(v)
+        tabs.append(f"{{| h_id := {cz(hid)}; h_key := {m['key']}%nat; h_value := {m['value']}%nat; h_max := {cz(m['max'])}; h_tab := {clist(ents)} |}}")
+    ms = clist([ebpf_exec.cbytes(r) for r in regions])
+    return f"(exec_hash {ebpf_exec.cprog(b['instrs'])} {ms} {clist(tabs)} {ebpf_exec.cbytes(bytes(256))})"
+
+
+def dict_run(case):
+    b = case["_b"]
+    if isinstance(b, Err):
+        return b
+    r = case["_run"]
+    if r is None:
+        return Err(9, "model evaluation failed")
+    status, regions, tabs, stack, r0 = r
+    if status != [1]:
+        return Err(7, f"the program did not exit normally (access outside the stack frame?): status {status}; {dict_describe(case)}")
+    S = len(stack)
+    vals, k = {}, 0
+    for it in case["items"]:
+        if it[0] == "L":
+            a = b["addrs"][k]
+            k += 1
+            vals[it[1]] = dsl.from_bytes(it[2], bytes(stack[S + a:S + a + fsize(it[2])]))
+        elif it[0] == "D":
+            ka, va = b["addrs"][k], b["addrs"][k + 1]
+            k += 2
+            off = 0
+            for i, f in enumerate(it[2]):
+                vals[f"{it[1]}.k{i}"] = dsl.from_bytes(f, bytes(stack[S + ka + off:S + ka + off + fsize(f)]))
+                off += fsize(f)
+            off = 0
+            for i, f in enumerate(it[3]):
+                vals[f"{it[1]}.v{i}"] = dsl.from_bytes(f, bytes(stack[S + va + off:S + va + off + fsize(f)]))
+                off += fsize(f)
+    # ---- hand the maps back to the Python side
+    sim = b["sim"]
+    for hid, ents in tabs:
+        sim.maps[b["hash_ids"][hid]]["data"] = {bytes(kk): bytes(regions[i]) for kk, i in ents}
+    entries, errors = {}, []
+    e = b["e"]
+    with sim_bpf.installed(sim):
+        for it in case["items"]:
+            try:
+                if it[0] == "H":
+                    vals[it[1]] = getattr(e, it[1])
+                elif it[0] == "D":
+                    ent = {}
+                    for kk in getattr(e, it[1]):
+                        v = getattr(e, it[1])[kk]
+                        ent[str([getattr(kk, f"k{i}") for i in range(len(it[2]))])] = [getattr(v, f"v{i}") for i in range(len(it[3]))]
+                    entries[it[1]] = ent
+            except Exception as ex:      # noqa
+                errors.append(f"{it[1]}: {type(ex).__name__}: {ex}")
+    o = {"values": vals, "entries": entries, "errors": errors, "addrs": b["addrs"], "scratch": b["scratch"]}
+    case["_o"] = o
+    return o
+
+
+def dict_describe(case):
+    return {k: v for k, v in case.items() if not k.startswith("_")}
+
+
+def dict_holds(case, o):
+    if isinstance(o, Err):
+        if o.code == 6 and "not enough registers" in o.what:
+            return True
+        return o.what if o.code == 7 else f"{o.what}; {dict_describe(case)}"
+    if o["errors"]:
+        return f"{o['errors'][0]}; {dict_describe(case)}"
+    for n, want in case["vals"].items():
+        got = o["values"][n]
+        if (abs(got - want) > 1e-9) if isinstance(want, float) else got != want:
+            return (f"{n} holds {got} at the end, {want} was written and nothing else was assigned to it (write order {case['order']}, "
+                    f"declarations {case['items']}, addresses {o['addrs']})")
+    if case["update"]:
+        for it in case["items"]:
+            if it[0] == "D":
+                key = str([case["vals"][f"{it[1]}.k{i}"] for i in range(len(it[2]))])
+                val = [case["vals"][f"{it[1]}.v{i}"] for i in range(len(it[3]))]
+                if o["entries"].get(it[1]) != {key: val}:
+                    return f"update() of {it[1]} stored {o['entries'].get(it[1])}, the key and value members had been set to {key}: {val}; {dict_describe(case)}"
+    return True
 
 
 CHECK = C04
